@@ -266,6 +266,23 @@ def history_cases(draw, tier):
     return c
 
 
+_EH = c03.Enum(1, 3, {'quick': 4, 'thorough': 6})
+_EH_SITES = {'frac': [[0.1, 0.1, 0.1], [0.55, 0.15, 0.9], [0.2, 0.7, 0.45]], 'labels': ['A', 'B', 'A']}
+
+
+def enum_size(tier):
+    return _EH.size(tier)
+
+
+def enum_case(tier, idx):
+    h = _EH.case_at(tier, idx)
+    T = len(h['states'])
+    lat = {'family': 'monoclinic', 'orient': 'lower', 'params': [6.0, 7.0, 8.0, 90.0, 105.0, 90.0], 'matrix': oracle.matrix_from_params_lower(6.0, 7.0, 8.0, 90.0, 105.0, 90.0).tolist()}
+    coords = [[[(0.13 * t + 0.07 * ((t * t) % 5)) % 1.0, (0.29 * t) % 1.0, (0.05 + 0.31 * t) % 1.0]] for t in range(T)]
+    return {'lattice': lat, 'sites': _EH_SITES, 'states': h['states'], 'inner': h['inner'], 'coords': coords, 'time_step': 1e-15, 'temperature': 500.0,
+            'n_parts': 1 + idx % 2, 'residence': [0, 0, 1][idx % 3], 'bounds': [-0.2, 0.3] if idx % 2 else None}
+
+
 SUBS = [
     Sub(name='pipeline', kind='hyp', run=run_pipeline, strategy=pipeline_cases,
         rule='hopping trajectories (1-3 diffusers, 2-6 sites, >=2 labels) in all cells through transitions_between_sites and Jumps; matrices, counters, diffusivity (1-3 dims), occupancy, graph (with/without energy bounds), rates',
@@ -273,4 +290,7 @@ SUBS = [
     Sub(name='histories', kind='hyp', run=run_history, strategy=history_cases,
         rule='direct multi-atom histories (each atom on its own site subset, so no double occupancy) over labelled random site sets with events to and from "no site"; same clauses',
         n={'quick': 120, 'thorough': 2500}, shards={'quick': 12, 'thorough': 16}),
+    Sub(name='enum-histories', kind='enum', run=run_history, size=enum_size, case_at=enum_case, exhaustive=True,
+        rule='complete enumeration: every one-atom (outer, inner) history over 3 sites labelled A, B, A of length 2..4 (quick) / 2..6 (thorough) in a monoclinic cell; all bookkeeping clauses',
+        shards={'quick': 16, 'thorough': 16}),
 ]
